@@ -95,6 +95,18 @@ func genC15(r *simrt.Rand, tier string) (Cfg, *Program) {
 		p.Tasks = append(p.Tasks, late)
 	}
 	if !static && len(late) == 0 && r.Chance(12) {
+		// the worker is restarted while the backlog is being drained: for a moment the event
+		// loop of the old run may dispatch next to the new one's, and the selections still go
+		// round the queues (checkSelections)
+		var ops []Op
+		for i, n := 0, 1+r.Intn(2); i < n; i++ {
+			for k := r.Intn(6); k > 0; k-- {
+				ops = append(ops, Op{K: opYield})
+			}
+			ops = append(ops, Op{K: opRestart})
+		}
+		p.Tasks = append(p.Tasks, ops)
+	} else if !static && len(late) == 0 && r.Chance(12) {
 		// a queue bound while the worker is stopped (between Stop and Restart) is bound like any
 		// other: after the Restart its jobs take part in the selection
 		var ops []Op
@@ -161,6 +173,79 @@ func (j *judgeCtx) dispatches() []c15Disp {
 	return out
 }
 
+// checkSelections: RoundRobin on the selections themselves.  Every Len() the manager asks
+// during a round-robin selection is recorded as such; a selection is the run of those
+// observations one goroutine makes up to the first non-empty queue.  Whoever dispatches, and
+// whatever becomes of the selected turn (dequeued, refused, abandoned for a pause), the next
+// selection goes on cyclically from the queue selected last: every queue between the two (in
+// binding order) was looked at by the later selection and found empty.  With all queues
+// bound at construction (no Bind in the episode) and nothing ever unbound this is exactly
+// "visits the non-empty queues cyclically in binding order".
+func (j *judgeCtx) checkSelections() {
+	wd := j.wd
+	if Strategy(wd.cfg.Strategy) != RoundRobin {
+		return
+	}
+	for _, c := range j.r.calls {
+		if c.K == opBind {
+			return
+		}
+	}
+	type ob struct {
+		lenObs
+		q int
+	}
+	var all []ob
+	for _, q := range wd.qs {
+		var src []lenObs
+		if q.rq != nil {
+			src = q.rq.lens
+		} else if q.ad != nil {
+			src = q.ad.lens
+		}
+		for _, o := range src {
+			if o.Sel {
+				all = append(all, ob{o, q.idx})
+			}
+		}
+	}
+	sort.Slice(all, func(a, b int) bool { return all[a].Seq < all[b].Seq })
+	nq := len(wd.qs)
+	scan := map[int][]ob{}
+	prev := -1
+	var prevSeq uint64
+	for _, o := range all {
+		sc := append(scan[o.Task], o)
+		if o.N == 0 {
+			if len(sc) >= nq {
+				sc = nil // everything was empty: no selection
+			}
+			scan[o.Task] = sc
+			continue
+		}
+		scan[o.Task] = nil
+		if prev >= 0 {
+			for k := 1; k <= nq; k++ {
+				q := (prev + k) % nq
+				if q == o.q {
+					break
+				}
+				seenEmpty := false
+				for _, x := range sc {
+					if x.q == q && x.N == 0 {
+						seenEmpty = true
+					}
+				}
+				if !seenEmpty {
+					j.add("C15.b", o.Seq, "RoundRobin selected queue %d (selection at %d) after queue %d (selection at %d) without finding queue %d empty in between: the selections do not go round the queues in binding order", o.q, o.Seq, prev, prevSeq, q)
+					return
+				}
+			}
+		}
+		prev, prevSeq = o.q, o.Seq
+	}
+}
+
 func judgeC15(j *judgeCtx) {
 	wd := j.wd
 	if j.ep.Res.Verdict != simrt.VDone || len(wd.qs) < 2 {
@@ -182,6 +267,7 @@ func judgeC15(j *judgeCtx) {
 		}
 	}
 	nq := len(wd.qs)
+	j.checkSelections()
 	disp := j.dispatches()
 	// two dispatching goroutines (after a Restart the event loop of the previous run can still
 	// be on its last pass, with the signal it was left when the run was stopped): the order in
